@@ -250,6 +250,15 @@ class DataConnection(Connection, abc.ABC):
             raise ConnectionFailedError(f"{self.hostname}:{self.port} : failed to connect") from exc
 
         else:
+            if self._is_closing:
+                # Disconnected while the connection was being opened: do not
+                # revive the connection, close what was just opened
+                writer, self._reader, self._writer = self._writer, None, None
+                if writer is not None:
+                    writer.close()
+                raise ConnectionFailedError(
+                    f"{self.hostname}:{self.port} : disconnected while connecting")
+
             adapter.debug("connected", extra=self.__dict__)
             await self.set_state(ConnectionState.CONNECTED)
 
